@@ -272,9 +272,10 @@ func init() {
 			{Run: "R2", Scope: []string{"conc", "broadcast"}, Rules: []string{"R2a", "R2b", "R2c", "R2d"}, Prefixes: []string{"conc."}},
 			{Run: "R17", Scope: []string{"conc"}, Rules: []string{"R17", "R2f"}, Prefixes: []string{"conc.(*ConcurrentQueue).WaitIdle"}},
 			{Run: "R1", Scope: []string{"conc", "linkedlist"}, Rules: []string{"R1a"}},
+			{Run: "Gqueue", Rules: []string{"R10"}, Prefixes: []string{"linkedlist."}},
 		},
 		Floors:      map[string]int{"R12": 5, "R13b": 1, "R2a": 2, "R2b": 5, "R17": 3, "R1a": 4},
-		Explanation: "A worker is spawned (running++) exactly under 'unlimited or running < limit', decided in the section that spawns; each enqueued job goes to exactly one of worker/queue with the matching counter; a worker retires only when the Pop made in the same section failed; WaitIdle samples 'idle' with its subscription, every path that can make running == 0 && queued == 0 true broadcasts (one frozen, justified exception), WaitIdle returns nil only when idle was sampled and an error-channel value only when it is a non-nil error; counters are accessed under the lock only." + structural,
+		Explanation: "A worker is spawned (running++) exactly under 'unlimited or running < limit', decided in the section that spawns; each enqueued job goes to exactly one of worker/queue with the matching counter; a worker retires only when the Pop made in the same section failed; WaitIdle samples 'idle' with its subscription, every path that can make running == 0 && queued == 0 true broadcasts (one frozen, justified exception), WaitIdle returns nil only when idle was sampled and an error-channel value only when it is a non-nil error; counters are accessed under the lock only. The job queue is the linked list: its methods are single write-mode sections that keep head and tail in agreement and link only fresh or listed elements (R10)." + structural,
 		NotDecided:  "the invariant 'queued > 0 only if running = limit' as such (an inductive invariant over counter values); enqueue order for n = 1 beyond the FIFO wiring; WatchState's optional errCh (it is not listened to; outside the property).",
 		Assumptions: []string{A1, A2, A3},
 		Technique:   "guarded-effect analysis (iff on the concurrency limit), one-sink-per-job balance, waiter discipline",
